@@ -7,6 +7,8 @@
  R3 no order-sensitive consumption of an unordered set (hash-seed dependence) in reachable code;
  R7 summary-fresh: the table stored under final_results['nat_sum_data'] is built from the estimates of this summary call only (it does
     not read final_results), so several summaries after one run do not depend on each other;
+ R8 repeatable entry point: nothing reachable from the national summary (callable any number of times on the model one run left on the
+    client) draws from a generator stored on an object - its stream would be shared by all those calls;
  R6 cache round trip: what save_data writes to the local preprocessed file (read back as input by later runs) is restricted to the
     columns captured in load_data from the incoming frame, not this run's derived columns (F34);
  R4 caller-owned arguments of the entry points are not mutated in place (a second run with the same objects would
@@ -300,6 +302,18 @@ def _order_uses(f, node, out, via=None, depth=0):
                     _order_uses(f, u, out, tg.id, depth + 1)
             return
         if isinstance(tg, ast.Attribute):
+            # a set kept on an object: judge every read of that attribute in the repository (a membership test / .add() is order-free)
+            if _REPO and isinstance(tg.value, ast.Name) and tg.value.id == "self" and depth <= 3:
+                n0 = len(out)
+                reads = 0
+                for g_ in _REPO[0].all_functions():
+                    for u in ast.walk(g_.node):
+                        if isinstance(u, ast.Attribute) and u.attr == tg.attr and isinstance(u.ctx, ast.Load):
+                            reads += 1
+                            _order_uses(g_, u, out, tg.attr, depth + 2)
+                if len(out) > n0:
+                    out[n0:] = [(p, f"stored in attribute {ast.unparse(tg)}, whose reads are order-sensitive ({out[n0][1]})")]
+                return
             out.append((p, f"stored in attribute {ast.unparse(tg)}"))
         return
     if isinstance(p, ast.Return):
@@ -394,6 +408,30 @@ def check(ctx):
                 ctx.ob("C12.R1.draw", key, ok, where, f"draw from the model's seeded generator ({why})" if ok
                        else f"draw from a generator that is not derived from the seed setting: {why}")
     ctx.sites("C12.R1", nsrc, 7, "randomness sources reachable from the entry points (sample, default_rng, 5 generator draws, bootstrap)")
+
+    # ---- R8: the summary entry point can be called any number of times on the model one run left on the client -------------
+    # a draw from a generator that lives on that model (seeded or not) advances a stream shared by all those calls: the n-th summary
+    # would depend on how many came before it. get_estimates is safe by R2 (fresh model per call, whose stream starts at the seed).
+    DRAWS = ("shuffle", "choice", "uniform", "normal", "multivariate_normal", "integers", "permutation", "standard_normal", "random",
+             "permuted", "binomial", "poisson", "exponential", "beta", "gamma", "dirichlet", "multinomial", "bytes", "rand", "randn", "randint")
+    reach_ns = cg.reachable([ns])
+    ndr, nfun = 0, 0
+    for f in reach_ns:
+        if f is ns or f.module.name == CLIENT:
+            continue
+        nfun += 1
+        for c in util.own_nodes(f, ast.Call):
+            name = c.func.attr if isinstance(c.func, ast.Attribute) else None
+            if name in DRAWS and isinstance(c.func, ast.Attribute) and _ext(repo, f, c.func) is None and _looks_like_rng(f, c.func.value) \
+                    and isinstance(c.func.value, ast.Attribute):
+                ndr += 1
+                ctx.ob("C12.R8.repeatable", util.key(f, c), False, f.where(c),
+                       f"{ast.unparse(c.func)[:60]}() draws from a generator kept on the model inside a function the national summary calls: the "
+                       "stream is shared by every summary requested after one run, so the n-th summary depends on the n-1 before it")
+    ctx.require(nfun >= 2, "C12.R8: the functions reachable from get_national_summary_votes_estimates were not resolved")
+    if not ndr:
+        ctx.ob("C12.R8.repeatable", f"{ns.qualname}|no draw from a persistent generator below the summary entry point", True, ns.where(),
+               f"{nfun} functions reachable from the national summary (outside the client) draw nothing from a generator stored on an object")
 
     # ---- R2 ------------------------------------------------------------------------------
     cfg = CFG(ge.node)
